@@ -33,6 +33,10 @@ def run(rep, tier):
     conversions(rep, F)
     unary(rep, F)
     clip(rep, F)
+    # unary_union picks its fill rule from Winding::winding_order of the input rings: the winding tables are shared with C05
+    from . import c05
+    c05.winding_table(rep, F, rule="R4.7")
+    c05.least_index_table(rep, F, rule="R4.7")
 
 
 def optype(rep, F):
